@@ -63,6 +63,8 @@ class Contract(object):
         self.all_props = tuple(d.get('all_props', default_props))
         self.note = d.get('note', '')
         self.cases = d.get('cases')     # optional list of extra case-split predicates
+        self.variants = list(d.get('variants', []))   # extra units with some params fixed (e.g. prec=None)
+        self.none_as = dict(d.get('none_as', {}))     # at call sites: param given as None means this value
         self.sig = inspect.signature(self.func)
         self.params = list(self.sig.parameters)
 
